@@ -257,7 +257,7 @@ func (c *checkCtx) check() int {
 			fmt.Fprintln(os.Stderr, "gcsim: build trouble:", err)
 			return 2
 		}
-		n := 80
+		n := 88
 		if c.Tier == "thorough" {
 			n = 1200
 		}
